@@ -792,13 +792,35 @@ def pack_unpack(chk, src):
             n.__dict__["tensor"] = PTensor(n.tensor._name, n.tensor.legs)
         w.overrides[("ttns", "get_qnmask")] = lambda node, *a: Mask("ttns", node._name)
         want = [(f"{n._name}", f"mask(ttns,{n._name})") for n in w.snodes]
-        # pack
-        comps = [n for n in ast.walk(ev.node) if isinstance(n, ast.ListComp)]
-        if len(comps) != 1:
-            raise AnalysisError(f"{ev.where}: the packing comprehension was not found")
-        packed = w.interp.ev(comps[0], {"ttns": w.ttns})
+        # pack: evolve_tdvp_vmf is run up to the call of the integrator, whose initial vector is recorded
+        class _Reached(Exception):
+            pass
+        seen_y0 = []
+
+        def _ivp(fun, span, y0, *a, **k):
+            seen_y0.append(y0)
+            raise _Reached()
+        b0 = w.interp.builtins
+        saved_np, saved_ivp = b0.get("np"), b0.get("solve_ivp")
+        b0["np"] = Sym("np", concatenate=lambda l, **k: list(l))
+        b0["solve_ivp"] = _ivp
+        w.ttns.__dict__["evolve_config"] = Blob("evolve_config")
+        try:
+            w.interp.call_function(ev, [w.ttns, w.ttno, Blob("coeff"), Blob("tau")])
+        except _Reached:
+            pass
+        finally:
+            if saved_np is not None:
+                b0["np"] = saved_np
+            if saved_ivp is not None:
+                b0["solve_ivp"] = saved_ivp
+            else:
+                b0.pop("solve_ivp", None)
+        if len(seen_y0) != 1 or not isinstance(seen_y0[0], list):
+            raise AnalysisError(f"{ev.where}: the initial vector handed to solve_ivp was not observed")
+        packed = seen_y0[0]
         got = [(c.what.replace(".tensor", ""), repr(c.mask)) if isinstance(c, Chunk) else repr(c) for c in packed]
-        chk.ob("pack-unpack", f"evolve_tdvp_vmf packs [{topo}]", got == want, ev.where, got, want, line=comps[0].lineno,
+        chk.ob("pack-unpack", f"evolve_tdvp_vmf packs [{topo}]", got == want, ev.where, got, want, line=ev.node.lineno,
                detail="the initial vector must be the masked entries of the node tensors in node_list order")
         # derivative
         b = w.interp.builtins
